@@ -79,6 +79,7 @@ def handle (j : Json) : Except String Json := do
     -- source quantizer (converted, put on the first edge, re-made by the consumer), nodes
     let some src ← typeOfJson (← j.getObjVal? "src") | throw "no source quantizer"
     let nodes ← (← (← j.getObjVal? "nodes").getArr?).toList.mapM nodeOfJson
+    if nodes.any autoPo2Rejects then return Json.mkObj [("err", Json.str "AssertionError")]
     match chainTypes (remake src) nodes with
     | some rs => pure <| Json.mkObj [("reports", Json.arr (rs.map reportToJson).toArray)]
     | none => pure <| Json.mkObj [("err", Json.str "bad-mode")]
